@@ -51,11 +51,50 @@ Lemma lookup_all_add : forall s ss x c y,
   lookup_all (add (s :: ss) x c) y = if N.eqb x y then Some c else lookup_all (s :: ss) y.
 Proof. intros. unfold lookup_all. cbn. destruct (N.eqb x y); reflexivity. Qed.
 
-Lemma nofn_lookup : forall ss x, nofn ss -> mapped_in_function ss x = lookup_all ss x.
+(* entries registered by `modify x = ..` (add_mod) are never const: `const modify` is refused *)
+Definition modnc (ss : scopes) : Prop :=
+  forall s b, In s ss -> In b (vars s) -> bmod b = true -> bconst b = false.
+
+(* the static scopes of a closure-free run: no function scope, modify aliases are not const *)
+Definition plain (ss : scopes) : Prop := nofn ss /\ modnc ss.
+
+Lemma contains_decl_none : forall vs x, contains vs x = None -> contains_decl vs x = None.
 Proof.
-  induction ss as [|s ss IH]; intros x H; [reflexivity|].
-  unfold lookup_all. cbn. destruct (contains (vars s) x); [reflexivity|].
-  rewrite (H s (or_introl eq_refl)). apply IH. intros s' Hs'. apply H. right. exact Hs'.
+  induction vs as [|b r IH]; intros x H; [reflexivity|]. cbn [contains contains_decl] in *.
+  destruct (N.eqb (bname b) x); [discriminate|]. apply IH. exact H.
+Qed.
+
+Lemma contains_decl_const : forall vs x,
+  (forall b, In b vs -> bmod b = true -> bconst b = false) ->
+  contains vs x = Some true -> contains_decl vs x = Some true.
+Proof.
+  induction vs as [|b r IH]; intros x Hm H; [discriminate|]. cbn [contains contains_decl] in *.
+  destruct (N.eqb (bname b) x).
+  - destruct (bmod b) eqn:Eb; [|exact H].
+    rewrite (Hm b (or_introl eq_refl) Eb) in H. discriminate.
+  - apply IH; [|exact H]. intros b' Hb'. apply Hm. right. exact Hb'.
+Qed.
+
+(* since /repo 2f6e39c has_name_been_mapped_in_function passes over the entries of `modify` statements, so it
+   differs from the lexical lookup where such an entry shadows a declaration; a CONST the lexical lookup finds
+   is a declaration (modnc), and without function scopes the function-local lookup finds it as well *)
+Lemma plain_lookup_const : forall ss x, plain ss ->
+  lookup_all ss x = Some true -> mapped_in_function ss x = Some true.
+Proof.
+  induction ss as [|s ss IH]; intros x [Hn Hm] H; [discriminate|].
+  unfold lookup_all in *. cbn [lookup_skip mapped_in_function] in *.
+  destruct (contains (vars s) x) as [c|] eqn:E.
+  - injection H as ->. rewrite (contains_decl_const _ _ (fun b => Hm s b (or_introl eq_refl)) E). reflexivity.
+  - rewrite (contains_decl_none _ _ E), (Hn s (or_introl eq_refl)). apply IH; [|exact H]. split.
+    + intros s' Hs'. apply Hn. right. exact Hs'.
+    + intros s' b Hs'. apply Hm. right. exact Hs'.
+Qed.
+
+Lemma plain_not_const : forall ss x, plain ss ->
+  is_const (mapped_in_function ss x) = false -> is_const (lookup_all ss x) = false.
+Proof.
+  intros ss x Hp H. destruct (lookup_all ss x) as [[|]|] eqn:E; try reflexivity.
+  rewrite (plain_lookup_const _ _ Hp E) in H. discriminate.
 Qed.
 
 Lemma nofn_add : forall ss x c, nofn ss -> nofn (add ss x c).
@@ -104,6 +143,38 @@ Proof. intros ss []; cbn; auto using tl_add, tl_add_all. destruct m; auto using 
 
 Lemma nofn_effect : forall ss s, nofn ss -> nofn (effect ss s).
 Proof. intros ss [] H; cbn; auto using nofn_add, nofn_add_all. destruct m; auto using nofn_add, nofn_add_mod. Qed.
+
+Lemma modnc_add : forall ss x c, modnc ss -> modnc (add ss x c).
+Proof.
+  intros [|s ss] x c H; [exact H|]. intros s' b [<-|Hs'] Hb Hm.
+  - cbn [vars] in Hb. destruct Hb as [<-|Hb]; [discriminate|]. exact (H s b (or_introl eq_refl) Hb Hm).
+  - exact (H s' b (or_intror Hs') Hb Hm).
+Qed.
+
+Lemma modnc_add_mod : forall ss x, modnc ss -> modnc (add_mod ss x).
+Proof.
+  intros [|s ss] x H; [exact H|]. intros s' b [<-|Hs'] Hb Hm.
+  - cbn [vars] in Hb. destruct Hb as [<-|Hb]; [reflexivity|]. exact (H s b (or_introl eq_refl) Hb Hm).
+  - exact (H s' b (or_intror Hs') Hb Hm).
+Qed.
+
+Lemma modnc_add_all : forall xs ss c, modnc ss -> modnc (add_all ss xs c).
+Proof. induction xs; intros; cbn; auto using modnc_add. Qed.
+
+Lemma modnc_push_block : forall ss, modnc ss -> modnc (push KBlock ss).
+Proof. intros ss H s b [<-|Hs] Hb Hm; [contradiction|exact (H s b Hs Hb Hm)]. Qed.
+
+Lemma modnc_effect : forall ss s, modnc ss -> modnc (effect ss s).
+Proof. intros ss [] H; cbn; auto using modnc_add, modnc_add_all. destruct m; auto using modnc_add, modnc_add_mod. Qed.
+
+Lemma plain_add : forall ss x c, plain ss -> plain (add ss x c).
+Proof. intros ss x c [Hn Hm]. split; [apply nofn_add|apply modnc_add]; assumption. Qed.
+
+Lemma plain_push_block : forall ss, plain ss -> plain (push KBlock ss).
+Proof. intros ss [Hn Hm]. split; [apply nofn_push_block|apply modnc_push_block]; assumption. Qed.
+
+Lemma plain_effect : forall ss s, plain ss -> plain (effect ss s).
+Proof. intros ss s [Hn Hm]. split; [apply nofn_effect|apply modnc_effect]; assumption. Qed.
 
 (* ---------------------------------------------------------------- run-time store: value-only updates *)
 
@@ -367,13 +438,13 @@ Definition body_scopes (ss : scopes) (cn : option name) : scopes :=
 
 Theorem exec_inv :
   (forall st s st1 l, ex st s st1 l ->
-     forall ss ss', nofn ss -> InvS ss st -> Cval st -> st <> [] -> check_stmt cfg_fixed ss s = Some ss' ->
+     forall ss ss', plain ss -> InvS ss st -> Cval st -> st <> [] -> check_stmt cfg_fixed ss s = Some ss' ->
      InvS ss' st1 /\ Cval st1 /\ Forall read_ok l) /\
   (forall st b st1 l, exb st b st1 l ->
-     forall ss ss', nofn ss -> InvS ss st -> Cval st -> st <> [] -> check_block cfg_fixed ss b = Some ss' ->
+     forall ss ss', plain ss -> InvS ss st -> Cval st -> st <> [] -> check_block cfg_fixed ss b = Some ss' ->
      (exists ss'', tl ss'' = tl ss /\ InvS ss'' st1) /\ Cval st1 /\ Forall read_ok l) /\
   (forall st cn b st3 l, iter st cn b st3 l ->
-     forall ss ssb, nofn ss -> InvS ss st -> Cval st -> st <> [] ->
+     forall ss ssb, plain ss -> InvS ss st -> Cval st -> st <> [] ->
      check_block cfg_fixed (body_scopes ss cn) b = Some ssb ->
      (forall x, cn = Some x -> is_const (lookup_all ss x) = false) ->
      InvS ss st3 /\ Cval st3 /\ Forall read_ok l).
@@ -386,7 +457,7 @@ Proof.
     destruct (assign_checks cfg_fixed (mapped_in_function ss x) c false x (add ss x c)) eqn:Ha; [|discriminate].
     intro H. injection H as <-.
     destruct (ev_inv _ _ _ _ Hev ss ss (fun _ => eq_refl) HI HC Hr) as [HI1 [HC1 L1]].
-    apply assign_checks_not_const in Ha. rewrite (nofn_lookup _ _ Hn) in Ha.
+    apply assign_checks_not_const in Ha. apply (plain_not_const _ _ Hn) in Ha.
     pose proof (InvS_ne _ _ HI1 (InvS_nonempty _ _ HI Nst)) as N1.
     destruct (reg_var_inv _ _ x v c HI1 HC1 N1 Ha) as [HI2 HC2]. auto.
   - (* p = rhs through a path *)
@@ -408,7 +479,7 @@ Proof.
     intro H. injection H as <-.
     destruct (ev_inv _ _ _ _ H1 (push KBlock ss) ss (lookup_all_push_block ss) HI HC Hc) as [HI1 [HC1 L1]].
     destruct (push_inv ss st1 [] HI1 HC1 (empty_scope_lookup ss)) as [HI2 HC2].
-    destruct (IH (push KBlock ss) s1 (nofn_push_block _ Hn) HI2 HC2 ltac:(discriminate) Ht) as [[ss'' [Ht' HI3]] [HC3 L2]].
+    destruct (IH (push KBlock ss) s1 (plain_push_block _ Hn) HI2 HC2 ltac:(discriminate) Ht) as [[ss'' [Ht' HI3]] [HC3 L2]].
     split; [|split].
     + apply InvS_tl in HI3. rewrite Ht' in HI3. exact HI3.
     + apply Cval_tl. exact HC3.
@@ -421,7 +492,7 @@ Proof.
     intro H. injection H as <-.
     destruct (ev_inv _ _ _ _ H1 (push KBlock ss) ss (lookup_all_push_block ss) HI HC Hc) as [HI1 [HC1 L1]].
     destruct (push_inv ss st1 [] HI1 HC1 (empty_scope_lookup ss)) as [HI2 HC2].
-    destruct (IH (push KBlock ss) s2 (nofn_push_block _ Hn) HI2 HC2 ltac:(discriminate) He) as [[ss'' [Ht' HI3]] [HC3 L2]].
+    destruct (IH (push KBlock ss) s2 (plain_push_block _ Hn) HI2 HC2 ltac:(discriminate) He) as [[ss'' [Ht' HI3]] [HC3 L2]].
     split; [|split].
     + apply InvS_tl in HI3. rewrite Ht' in HI3. exact HI3.
     + apply Cval_tl. exact HC3.
@@ -440,7 +511,7 @@ Proof.
     injection Hchk as <-.
     destruct (ev_inv _ _ _ _ H1 (push KBlock ss) ss (lookup_all_push_block ss) HI HC Hc) as [HI1 [HC1 L1]].
     destruct (push_inv ss st1 [] HI1 HC1 (empty_scope_lookup ss)) as [HI2 HC2].
-    destruct (IHb (push KBlock ss) s1 (nofn_push_block _ Hn) HI2 HC2 ltac:(discriminate) Hb) as [[ss'' [Ht' HI3]] [HC3 L2]].
+    destruct (IHb (push KBlock ss) s1 (plain_push_block _ Hn) HI2 HC2 ltac:(discriminate) Hb) as [[ss'' [Ht' HI3]] [HC3 L2]].
     apply InvS_tl in HI3. rewrite Ht' in HI3. cbn [tl push] in HI3.
     pose proof (InvS_ne _ _ HI3 (InvS_nonempty _ _ HI Nst)) as N2.
     destruct (IHw ss ss Hn HI3 (Cval_tl _ HC3) N2 Hchk0) as [HI4 [HC4 L3]].
@@ -453,7 +524,7 @@ Proof.
       as [sb|] eqn:Hb; [|discriminate].
     intro Hchk.
     assert (Hcx : forall x, cn = Some x -> is_const (lookup_all ss x) = false).
-    { intros x ->. cbn [chk_counter cfg_fixed andb] in Hchk. rewrite <- (nofn_lookup _ _ Hn).
+    { intros x ->. cbn [chk_counter cfg_fixed andb] in Hchk. apply (plain_not_const _ _ Hn).
       destruct (is_const (mapped_in_function ss x)); [discriminate|reflexivity]. }
     assert (Hss : ss' = ss).
     { destruct cn as [x|]; [|injection Hchk as <-; reflexivity].
@@ -480,7 +551,7 @@ Proof.
     destruct (IHs ss ss1 Hn HI HC Nst Hs) as [HI1 [HC1 L1]].
     pose proof (check_stmt_effect _ _ _ Hs) as ->.
     pose proof (InvS_ne _ _ HI1 (effect_ne _ s (InvS_nonempty _ _ HI Nst))) as N1.
-    destruct (IHb (effect ss s) ss' (nofn_effect _ _ Hn) HI1 HC1 N1 Hb) as [[ss'' [Ht HI2]] [HC2 L2]].
+    destruct (IHb (effect ss s) ss' (plain_effect _ _ Hn) HI1 HC1 N1 Hb) as [[ss'' [Ht HI2]] [HC2 L2]].
     split; [|split]; auto.
     + exists ss''. split; [|exact HI2]. rewrite Ht. apply tl_effect.
     + apply Forall_app; auto.
@@ -493,8 +564,8 @@ Proof.
       - apply push_inv; auto. intros y Hy. apply block_scope_lookup; auto.
       - apply push_inv; auto. apply empty_scope_lookup. }
     destruct Hpush as [HI1 HC1].
-    assert (Hnb : nofn (body_scopes ss cn)).
-    { destruct cn; cbn [body_scopes]; [apply nofn_add|]; apply nofn_push_block; exact Hn. }
+    assert (Hnb : plain (body_scopes ss cn)).
+    { destruct cn; cbn [body_scopes]; [apply plain_add|]; apply plain_push_block; exact Hn. }
     destruct (IHb (body_scopes ss cn) ssb Hnb HI1 HC1 ltac:(discriminate) Hb) as [[ss'' [Ht HI2]] [HC2 L1]].
     apply InvS_tl in HI2. rewrite Ht in HI2.
     assert (Etl : tl (body_scopes ss cn) = ss) by (destruct cn; reflexivity). rewrite Etl in HI2.
@@ -518,7 +589,7 @@ Proof.
   destruct (check_block cfg_fixed file_scope p) as [ss'|] eqn:Hb; [|discriminate].
   destruct exec_inv as [_ [HB _]].
   refine (proj2 (proj2 (HB _ _ _ _ He file_scope ss' _ _ _ _ Hb))).
-  - intros s [<-|[]]. reflexivity.
+  - split; [intros s [<-|[]]; reflexivity|intros s b [<-|[]] []].
   - cbn. split; [|exact I]. intros f r [<-|[]] [].
   - intros f r [<-|[]] [].
   - discriminate.
